@@ -29,6 +29,8 @@ def run_one(name):
             dm = subprocess.run(['/venv/bin/python', demo], cwd=s, env=env, capture_output=True, text=True, timeout=300)
             res['demo_exit_with_patch'] = dm.returncode
         for chk in [prop] + EXTRA.get(prop, []):
+            if chk != prop and res['checks'].get(prop, {}).get('exit') == 1 and not os.environ.get('RESEED_ALL_NEIGHBOURS'):
+                break      # neighbours are only consulted when the property's own check is silent
             env = dict(os.environ, VP_REPO=s, VP_NOEVIDENCE='1', VP_NPROC=os.environ.get('VP_NPROC_EACH', '4'))
             r = subprocess.run(['./check', chk, '--tier', 'quick'], cwd='/verif', env=env, capture_output=True, text=True)
             first = ''
@@ -48,7 +50,7 @@ def main():
     if len(sys.argv) > 1:
         names = [n for n in names if any(n.startswith(p) or ('-' + p) in n for p in sys.argv[1:])]
     out = []
-    with concurrent.futures.ThreadPoolExecutor(4) as ex:
+    with concurrent.futures.ThreadPoolExecutor(int(os.environ.get('RESEED_PAR', '4'))) as ex:
         for r in ex.map(run_one, names):
             out.append(r)
             own = r['checks'].get(r['property'], {}).get('exit')
@@ -68,7 +70,7 @@ def main():
     if len(sys.argv) == 1:
         with open(os.path.join(SEEDED, 'RESULTS.md'), 'w') as fh:
             fh.write('# Seeded property-breaking changes versus the quick checks\n\n(regenerate with tools/reseed.py)\n\n')
-            fh.write('| change | property | 70 tests | demo exit | own check | other checks that fire | first violation |\n|---|---|---|---|---|---|---|\n')
+            fh.write('| change | property | 70 tests | demo exit | own check | neighbouring checks that fire (consulted only when the own check is silent) | first violation |\n|---|---|---|---|---|---|---|\n')
             for r in out:
                 own = r['checks'].get(r['property'], {})
                 fh.write('| %s | %s | %s | %s | %s | %s | %s |\n' % (
